@@ -364,15 +364,7 @@ func (interp *Interpreter) cfg(root *node, sc *scope, importPath, pkgName string
 			// Pre-define symbols for labels defined in this block, so we are sure that
 			// they are already defined when met.
 			// TODO(marc): labels must be stored outside of symbols to avoid collisions.
-			for _, c := range n.child {
-				if c.kind != labeledStmt {
-					continue
-				}
-				label := c.child[0].ident
-				sym := &symbol{kind: labelSym, node: c, index: -1}
-				sc.sym[label] = sym
-				c.sym = sym
-			}
+			defineLabels(sc, n.child)
 			// If block is the body of a function, get declared variables in current scope.
 			// This is done in order to add the func signature symbols into sc.sym,
 			// as we will need them in post-processing.
@@ -404,6 +396,9 @@ func (interp *Interpreter) cfg(root *node, sc *scope, importPath, pkgName string
 
 		case caseClause:
 			sc = sc.pushBloc()
+			if len(n.child) > 0 {
+				defineLabels(sc, n.lastChild().child)
+			}
 			if sn := n.anc.anc; sn.kind == typeSwitch && sn.child[1].action == aAssign {
 				// Type switch clause with a var defined in switch guard.
 				var typ *itype
@@ -433,9 +428,11 @@ func (interp *Interpreter) cfg(root *node, sc *scope, importPath, pkgName string
 
 		case commClauseDefault:
 			sc = sc.pushBloc()
+			defineLabels(sc, n.child)
 
 		case commClause:
 			sc = sc.pushBloc()
+			defineLabels(sc, n.child)
 			if len(n.child) > 0 && n.child[0].action == aAssign {
 				ch := n.child[0].child[1].child[0]
 				var typ *itype
@@ -3641,6 +3638,20 @@ func isConstString(n *node) bool {
 // the statement may be a result variable, to read before it is overwritten.
 func isResultOf(n *node, sc *scope) bool {
 	return n.anc.kind == returnStmt && (len(n.anc.child) == 1 || !namedResults(sc.def))
+}
+
+// defineLabels defines the symbols of the labels of the statements of a block,
+// so that they are already defined when met.
+func defineLabels(sc *scope, stmts []*node) {
+	for _, c := range stmts {
+		if c.kind != labeledStmt {
+			continue
+		}
+		label := c.child[0].ident
+		sym := &symbol{kind: labelSym, node: c, index: -1}
+		sc.sym[label] = sym
+		c.sym = sym
+	}
 }
 
 // nextClause returns the clause which follows clauses[i] in the source, or nil.
